@@ -51,7 +51,7 @@ def match_known(known, pid, feats, verdict):
         if "bucket_contains" in m and (verdict.bucket is None or m["bucket_contains"] not in verdict.bucket):
             continue
         fm = m.get("features", {})
-        if all(feats.get(a) == b for a, b in fm.items()):
+        if all((feats.get(a) in b) if isinstance(b, list) else (feats.get(a) == b) for a, b in fm.items()):
             return k
     return None
 
